@@ -1,5 +1,7 @@
 import CV.Proofs.AnsInverse
 import CV.Proofs.AnsExport
+import CV.Proofs.AnsAtomic
+import CV.Proofs.RangeTableModel
 /-!
 # C01 — the ANS coder is a lossless stack under any history
 
@@ -289,6 +291,56 @@ theorem run_refines_stack {W S : Nat} (hWS : 1 ≤ W ∧ 2 * W ≤ S)
       · simp only [run, step]; exact h1
       · simpa [specRun] using h4
 
+
+/-! ## Batch / reverse / fallible-iterator forms
+
+`Model/Ans.lean` transcribes the default trait methods (`encode_symbols`, `try_encode_symbols`,
+`encode_iid_symbols` and the `_reverse` helpers) as the loop they are, over items that may be `Err`
+(`none`); the driver answers every `encs` line with these functions.  On the model side "the
+batch form equals the per-symbol loop" is the recursion equations below; that the *real* batch
+methods equal them is what the correspondence and the twin-coder oracle check. -/
+
+/-- the caller's per-symbol loop: call `encode_symbol` for each pair, stop at the first error -/
+def perSymbolLoop (c : Cfg) : Coder → List (Sym × Model Sym) → Coder × Except EncErr Unit
+  | x, [] => (x, .ok ())
+  | x, (s, m) :: rest =>
+    match encodeSymbolM c m s x with
+    | (y, .ok ()) => perSymbolLoop c y rest
+    | (y, .error e) => (y, .error e)
+
+/-- **batch form = per-symbol loop** (same coder, same result), for every coder and every list of
+    pairs, including lists on which some symbol is impossible or the backend fills up -/
+theorem encodeSymbols_eq_perSymbolLoop (c : Cfg) (items : List (Sym × Model Sym)) (x : Coder) :
+    encodeSymbols c x (items.map some) =
+      ((perSymbolLoop c x items).1,
+        match (perSymbolLoop c x items).2 with
+        | .ok () => .ok ()
+        | .error e => .error (.coding e)) := by
+  induction items generalizing x with
+  | nil => rfl
+  | cons a rest ih =>
+    obtain ⟨s, m⟩ := a
+    simp only [List.map_cons, encodeSymbols, perSymbolLoop]
+    cases h : encodeSymbolM c m s x with
+    | mk y r =>
+      cases r with
+      | ok u => cases u; simp only; exact ih y
+      | error e => rfl
+
+/-- all calls succeed ⇒ the batch form leaves exactly the coder of the successive `encode`s -/
+theorem encodeSymbols_step_ok (c : Cfg) (x y : Coder) (s : Sym) (m : Model Sym)
+    (rest : List (Option (Sym × Model Sym))) (h : encode c m s x = .ok y) :
+    encodeSymbols c x (some (s, m) :: rest) = encodeSymbols c y rest :=
+  encodeSymbols_cons_ok c x y s m rest h
+
+/-- the reverse forms are the forward form on the reversed items -/
+theorem encodeSymbolsReverse_def {c : Cfg} (x : Coder) (items : List (Option (Sym × Model Sym))) :
+    encodeSymbolsReverse c x items = encodeSymbols c x items.reverse := rfl
+
+/-- an `Err` item (fallible forms) stops the loop and leaves the coder as the successful prefix left it -/
+theorem tryEncode_stops_at_err {c : Cfg} (x : Coder) (rest : List (Option (Sym × Model Sym))) :
+    encodeSymbols c x (none :: rest) = (x, .error .model) := rfl
+
 /-! ## Non-vacuity: the hypotheses are satisfiable by non-trivial instances -/
 
 /-- `AnsCoder<u8,u16>` at `P = 8` with a non-empty bulk and the state exactly on the
@@ -301,9 +353,38 @@ example : ({ W := 8, S := 16, P := 8, B := 8 } : Cfg).Valid := by decide
 /-- `P = W = B` with a 128-bit state is admitted -/
 example : ({ W := 32, S := 128, P := 32, B := 32 } : Cfg).Valid := by decide
 
+
+/-- a well-formed model at `P = W = B = 8` with a symbol of one quantum and one of `2^P - 1` quanta
+    (the harness's table model `[0, 255, 256]`) -/
+example : (tableModel [0, 255, 256]).WellFormed 8 :=
+  CV.tableModel_wf (CV.strictCdf_of_check (by decide))
+
+/-- the hypotheses of `run_refines_stack` hold for a concrete non-trivial history on
+    `AnsCoder<u8,u16>`: push the 1-quantum symbol, push the 255-quanta symbol, reload, pop, pop -/
+example : ∀ op ∈ ([.push ⟨8, 8, tableModel [0, 255, 256], 1⟩, .push ⟨8, 8, tableModel [0, 255, 256], 0⟩,
+      .reload, .pop, .pop] : List (Op Nat)), op.OK 8 16 := by
+  have hwf : (tableModel [0, 255, 256]).WellFormed 8 :=
+    CV.tableModel_wf (CV.strictCdf_of_check (by decide))
+  intro op hop
+  simp only [List.mem_cons, List.mem_nil_iff, or_false] at hop
+  rcases hop with h | h | h | h | h <;> subst h
+  · exact ⟨by decide, hwf, (255, 1), by decide⟩
+  · exact ⟨by decide, hwf, (0, 255), by decide⟩
+  · trivial
+  · trivial
+  · trivial
+
 end CV.Ans.C01
 
 #print axioms CV.Ans.C01.decode_encode
 #print axioms CV.Ans.C01.import_export
 #print axioms CV.Ans.C01.no_trailing_zero
 #print axioms CV.Ans.C01.run_refines_stack
+#print axioms CV.Ans.C01.encArith_cap
+#print axioms CV.Ans.C01.decArith_cap
+#print axioms CV.Ans.C01.replay_inv
+#print axioms CV.Ans.C01.inv_congr
+#print axioms CV.Ans.C01.encodeSymbols_eq_perSymbolLoop
+#print axioms CV.Ans.C01.encodeSymbols_step_ok
+#print axioms CV.Ans.C01.encodeSymbolsReverse_def
+#print axioms CV.Ans.C01.tryEncode_stops_at_err
